@@ -17,11 +17,23 @@ package message
 import (
 	"encoding/binary"
 	"fmt"
+	"sync/atomic"
 )
 
 var (
 	gPacketID uint64 = 0
 )
+
+// nextPacketID returns the next automatically assigned packet identifier.
+// Identifier 0 is not allowed by MQTT (and means "not set" in SetPacketID), so
+// it is skipped whenever the low 16 bits of the counter wrap around.
+func nextPacketID() uint16 {
+	for {
+		if id := uint16(atomic.AddUint64(&gPacketID, 1)); id != 0 {
+			return id
+		}
+	}
+}
 
 // Fixed header
 // - 1 byte for control packet type (bits 7-4) and flags (bits 3-0)
